@@ -71,15 +71,19 @@ register("fista", s_fista(), b_fista, quick=150)
 def s_active_set(draw):
     m, r = draw(st.integers(2, 6)), draw(st.integers(1, 4))
     return {"U": draw(enc([m, r], draw(st.sampled_from(["uniform", "normal"])))), "m": draw(enc([m], "normal")),
-            "x": draw(st.one_of(st.none(), enc([r], "sparse_nonneg"))), "n_iter_max": draw(st.integers(1, 10))}
+            "x": draw(st.one_of(st.none(), enc([r], "sparse_nonneg"), enc([r], "uniform"), enc([r], "uniform"))), "n_iter_max": draw(st.integers(1, 10)),
+            "dup": r >= 2 and draw(st.booleans())}
 
 
 def b_active_set(e, ctx):
     U, m = gen.dec(e["U"]), gen.dec(e["m"])
+    if e.get("dup"):
+        U = U.copy()
+        U[:, 1] = U[:, 0]        # collinear columns: a warm start with both passive makes the first solve singular (fallback path)
     return Call(NN.active_set_nnls, dict(Utm=ctx.W(U.T @ m), UtU=ctx.W(U.T @ U), x=ctx.A(e["x"]), n_iter_max=e["n_iter_max"]))
 
 
-register("active_set_nnls", s_active_set(), b_active_set, quick=150)
+register("active_set_nnls", s_active_set(), b_active_set, quick=200)
 
 
 # constraint name -> strategy for its parameter
